@@ -45,7 +45,7 @@ theorem md_user_cross (m0 : MetaData) (k : Bytes) (env : Env) (c : Call) (A A' :
   obtain ⟨rest, hargs⟩ := args_cons4 h0 h1 h2 h3
   have hnum : NumOK t := decToken_num _ _ hw.old
   obtain ⟨mt, hmt⟩ := Option.isSome_iff_exists.mp hw.hasMeta
-  have hpos : mt.nonce ≠ 0 := hI.mdpos _ _ t mt hw.present hw.old hmt
+  have hpos : mt.nonce ≠ 0 := hI.mdpos _ _ t mt (tokKey_nft _ _) hw.present hw.old hmt
   have hnonce : mdNonce t = u64 (beNat nb) := by
     rcases hnon mt hmt with h | h
     · exact absurd h hpos
@@ -90,7 +90,7 @@ theorem md_user_same (m0 : MetaData) (k : Bytes) (env : Env) (c : Call) (A A' : 
   rw [hA'] at hfin
   have hnum : NumOK t := decToken_num _ _ hw.old
   obtain ⟨mt, hmt⟩ := Option.isSome_iff_exists.mp hw.hasMeta
-  have hpos : mt.nonce ≠ 0 := hI.mdpos _ _ t mt hw.present hw.old hmt
+  have hpos : mt.nonce ≠ 0 := hI.mdpos _ _ t mt (tokKey_nft _ _) hw.present hw.old hmt
   have hnonce : mdNonce t = u64 (beNat nb) := by
     rcases (nftSender_nonce env c { accts := A } hs).elim h tok nb t mt h0 h1 hw.old hmt with hz | hz
     · exact absurd hz hpos
